@@ -260,6 +260,21 @@ func VerifHarness_SequentialApplies() {
 			zz.Assert(published == cur && newVersion == curVersion, "a rejected or unchanged application replaced the configuration or changed the version")
 		} else {
 			zz.Assert(res.Version == newVersion && newVersion != curVersion, "an applied change did not produce a new version, or the result reports another one")
+			// the caller keeps its candidate and may edit it afterwards: the published snapshot is its own copy
+			before := string(zzEncConfig(published))
+			for i := range cand.Config.Lite.Routes {
+				r := &cand.Config.Lite.Routes[i]
+				if len(r.Backend) > 0 {
+					r.Backend[0] = "edited-later:1"
+				}
+				if len(r.Host) > 0 {
+					r.Host[0] = "edited.example.com"
+				}
+			}
+			after, _ := configVersion(g.currentConfig.Load())
+			zz.Assert(string(zzEncConfig(g.currentConfig.Load())) == before && after == newVersion, "editing the candidate after it was applied changed the published configuration or its version (the snapshot shares memory with the caller)")
+			pcr := g.javaProxy.Config().Lite.Routes
+			zz.Assert(string(zzEncRoutes(pcr)) == string(zzEncRoutes(published.Config.Lite.Routes)), "editing the candidate after it was applied changed the proxy's routes")
 			zz.Reach("applied")
 		}
 		content := string(zzEncConfig(published))
